@@ -1694,6 +1694,7 @@ func oracle(c core.Case, out []string) []core.Finding {
 		prev = o.all
 		qPrev = o.q
 	}
+	fs = append(fs, oracleRecency(c, out)...)
 	// one finding per fingerprint per case
 	uniq := map[string]bool{}
 	var res []core.Finding
@@ -1704,6 +1705,162 @@ func oracle(c core.Case, out []string) []core.Finding {
 		}
 	}
 	return res
+}
+
+// oracleRecency: "remembered" = among the last cacheSize distinct keys by most recent push.
+// A key pushed at event t (submission that reaches the cache, or commit with code 0) and not taken
+// out since is certainly still cached as long as FEWER THAN cacheSize distinct other keys have been
+// pushed after t (Lean: Props.C12.cache_remembers_recent). While that holds, a submission of it
+// must be answered ErrTxInCache. Every op that might push another key is counted (a superset), and
+// a key is dropped from the watch list on anything that might take it out of the cache, so the
+// clause only fires on certain cases. Plain pools only (no async / split mode).
+func oracleRecency(c core.Case, out []string) []core.Finding {
+	var fs []core.Finding
+	var cfg map[string]string
+	var cache int64
+	ver := "v?"
+	lastPush := map[string]int{}  // key -> index into pushes of its latest push
+	byCommit := map[string]bool{} // that push was a commit (Update, code 0)
+	var pushes []string           // every key that may have been pushed, in order
+	var prev []string
+	post := "-" // PostCheckMaxGas bound in force
+	reset := func() { lastPush, byCommit, pushes, prev = map[string]int{}, map[string]bool{}, nil, nil }
+	for i, op := range c.Ops {
+		if i >= len(out) {
+			break
+		}
+		f := strings.Fields(op)
+		if len(f) == 0 {
+			continue
+		}
+		m := kv(op)
+		o := parseObs(out[i])
+		if f[0] == "cfg" {
+			cfg = nil
+			if o.ok && m["async"] != "1" && m["split"] != "1" {
+				cfg = m
+				ver = "v" + m["ver"]
+				cache, _ = atoi(m["cache"])
+			}
+			reset()
+			post = "-"
+			continue
+		}
+		if cfg == nil || !o.ok {
+			if cfg != nil && f[0] != "reap" && f[0] != "reapn" {
+				reset() // ccheck, stress, bad lines …: cache contents unknown from here
+			}
+			continue
+		}
+		switch f[0] {
+		case "check":
+			tx := normTok(m["tx"])
+			if t, ok := lastPush[tx]; ok && cache > 0 {
+				distinct := map[string]bool{}
+				for _, k := range pushes[t+1:] {
+					if k != tx {
+						distinct[k] = true
+					}
+				}
+				if int64(len(distinct)) < cache && o.res != "in-cache" && o.res != "full" && o.res != "too-large" && o.res != "pre" {
+					if byCommit[tx] && contains(o.all, tx) {
+						fs = append(fs, core.Finding{Fingerprint: ver + ".CheckTx.readmits-committed-tx-still-within-cache-window",
+							Desc: fmt.Sprintf("tx %s was committed (code 0, pushed to the cache) and only %d distinct other keys have been pushed since (cache_size=%d), yet its resubmission at op %d was not answered ErrTxInCache and it is in the pool again", tx, len(distinct), cache, i)})
+					} else {
+						fs = append(fs, core.Finding{Fingerprint: "cache.Push.does-not-refresh-recency",
+							Desc: fmt.Sprintf("%s: key %s was pushed and only %d distinct other keys have been pushed since (cache_size=%d), yet CheckTx at op %d answered %q instead of ErrTxInCache: the cache forgot a key within its recency window", ver, tx, len(distinct), cache, i, o.res)})
+					}
+				}
+			}
+			pushes = append(pushes, tx)
+			code, _ := atoi(m["code"])
+			switch {
+			case o.res == "in-cache":
+				lastPush[tx] = len(pushes) - 1 // a hit refreshes the recency
+			case strings.HasPrefix(o.res, "ok") && code == 0 && postPasses(post, m["gas"]) && contains(o.all, tx):
+				lastPush[tx] = len(pushes) - 1
+				byCommit[tx] = false
+			default:
+				delete(lastPush, tx)
+			}
+			for _, t := range prev { // evicted entries leave the cache too
+				if !contains(o.all, t) {
+					delete(lastPush, t)
+				}
+			}
+		case "update":
+			if m["post"] != "-" && m["post"] != "" {
+				post = m["post"]
+			}
+			txl, cl := splitList(m["txs"]), splitList(m["codes"])
+			inBlock := map[string]bool{}
+			for k, t := range txl {
+				t = normTok(t)
+				inBlock[t] = true
+				pushes = append(pushes, t)
+				if k < len(cl) && cl[k] == "0" {
+					lastPush[t] = len(pushes) - 1
+					byCommit[t] = true
+				} else if cfg["keep"] != "1" {
+					delete(lastPush, t)
+				}
+			}
+			for _, t := range prev { // recheck rejection / TTL expiry take the key out of the cache
+				if !contains(o.all, t) && !inBlock[t] {
+					delete(lastPush, t)
+				}
+			}
+		case "flush":
+			reset()
+		case "reap", "reapn":
+		default:
+			reset()
+		}
+		prev = o.all
+	}
+	return fs
+}
+
+// genCacheRecency: a small cache (2..10) and a pool that is larger. Key A is pushed first, the cache
+// is filled with other keys, A is pushed AGAIN (resubmission = cache hit, or commit of A in a block),
+// then fewer than cache_size fresh keys arrive — enough to push A out if the second push did not
+// refresh its recency, not enough otherwise — and A is submitted once more.
+func genCacheRecency(r *rand.Rand, emit func(core.Case), n, ver int) {
+	for c := 0; c < n; c++ {
+		cache := 2 + r.Intn(9)
+		fresh := 0
+		next := func() string { fresh++; return fmt.Sprintf("%04x", 0x6000+fresh) }
+		ops := []string{fmt.Sprintf("cfg ver=%d size=%d maxbytes=100000 maxtx=1000 cache=%d keep=%d recheck=0 ttl=0 ttld=0 h=1", ver, 3*cache+8, cache, r.Intn(2))}
+		chk := func(t string) string {
+			return fmt.Sprintf("check tx=%s peer=%d code=0 gas=1 prio=1 sender=-", t, r.Intn(4))
+		}
+		a := next()
+		ops = append(ops, chk(a))
+		for i := 0; i < r.Intn(cache); i++ { // up to a full cache, A the oldest entry
+			ops = append(ops, chk(next()))
+		}
+		h := 1
+		for round := 0; round < 1+r.Intn(3); round++ {
+			// push A again
+			if r.Intn(2) == 0 {
+				ops = append(ops, chk(a))
+			} else {
+				h++
+				blk, codes := []string{a}, []string{"0"}
+				if r.Intn(3) == 0 {
+					blk, codes = []string{next(), a}, []string{"0", "0"}
+				}
+				ops = append(ops, fmt.Sprintf("update h=%d txs=%s codes=%s rv=- pre=- post=-", h, strings.Join(blk, ","), strings.Join(codes, ",")))
+			}
+			// fewer than cache_size fresh keys
+			for i := 0; i < 1+r.Intn(cache-1); i++ {
+				ops = append(ops, chk(next()))
+			}
+			// and A once more: must still be remembered
+			ops = append(ops, chk(a))
+		}
+		emit(core.Case{Kind: fmt.Sprintf("cache-recency-v%d", ver), Ops: ops})
+	}
 }
 
 // ---------- generators ----------
@@ -2324,6 +2481,8 @@ func main() {
 			genAsync(r, emit, n/2)
 			genTTL(r, emit, n/2)
 			genAsyncCommit(r, emit, n/4)
+			genCacheRecency(r, emit, n/4, 0)
+			genCacheRecency(r, emit, n/4, 1)
 			genSplit(r, emit, n/2)
 			genBigV1(r, emit, n/20)
 			genVarint(r, emit, n/10, 0)
